@@ -18,7 +18,7 @@ from .vm import VM, Inconclusive, Terminal, cells_to_val, cell_term, cell_eq, to
 ALPHA = 0x3B1
 
 
-def build_bs():
+def build_bs(extra=False):
     tdir = os.path.join(H.BUILD, 'bs')
     src = os.path.join(H.VERIF, 'bs')
     env = dict(os.environ, CARGO_TARGET_DIR=tdir, RUSTFLAGS=H.RUSTFLAGS, CARGO_NET_OFFLINE='true')
@@ -39,6 +39,12 @@ def build_bs():
         if not fs:
             raise H.Broken("no IR for " + n)
         ll.append(max(fs, key=os.path.getmtime))
+    if extra:
+        for n in ('bincode', 'serde', 'emap', 'micromap', 'microstack', 'hashbrown'):
+            fs = sorted(glob.glob(os.path.join(deps, n + '-*.ll')))
+            if not fs:
+                raise H.Broken("no IR for " + n)
+            ll += fs
     return dict(ll=ll, seconds=time.time() - t0, profile='dev-like (nightly, -Zbuild-std)')
 
 
